@@ -1,6 +1,10 @@
 import HdVerif.Model.Codec
 import HdVerif.Proofs.Bits
 import HdVerif.Proofs.RatFloor
+import Mathlib.Tactic.Ring
+import Mathlib.Tactic.Linarith
+import Mathlib.Tactic.Positivity
+import Mathlib.Tactic.NormNum
 /-! Helper lemmas for C07.
 
 1. `encodeFrameRoute` (translated from `encode_frame`) accepts exactly `AcceptSpec` -- both directions,
@@ -174,5 +178,471 @@ theorem route_complete (q : Req) (r : Int) (hs : AcceptSpec q r) : q.route = .ok
 /-- **`encode_frame` accepts exactly the specified requests, and routes them as specified.** -/
 theorem route_iff (q : Req) (r : Int) : q.route = .ok r ↔ AcceptSpec q r :=
   ⟨route_sound q r, route_complete q r⟩
+
+/-! ### little-endian cells, two's complement, unused-bit correction -/
+
+theorem leBytes_length (k v : Nat) : (leBytes k v).length = k := by
+  induction k generalizing v with
+  | zero => rfl
+  | succ k ih => simp [leBytes, ih]
+
+theorem ofLeBytes_leBytes (k v : Nat) (h : v < 256 ^ k) : ofLeBytes (leBytes k v) = v := by
+  induction k generalizing v with
+  | zero =>
+    have : v = 0 := by simpa using h
+    subst this; rfl
+  | succ k ih =>
+    simp only [leBytes, ofLeBytes]
+    have : v / 256 < 256 ^ k := by
+      rw [Nat.div_lt_iff_lt_mul (by norm_num)]
+      rw [Nat.pow_succ] at h; exact h
+    rw [ih _ this]; omega
+
+theorem pow256 (n : Nat) : 256 ^ n = 2 ^ (8 * n) := by
+  rw [show (256 : Nat) = 2 ^ 8 by norm_num, ← Nat.pow_mul]
+
+theorem toUnsigned_cast (bits : Nat) (v : Int) : ((toUnsigned bits v : Nat) : Int) = v % (2 : Int) ^ bits := by
+  unfold toUnsigned
+  have hp : (0 : Int) < (2 : Int) ^ bits := by positivity
+  exact Int.toNat_of_nonneg (Int.emod_nonneg v (ne_of_gt hp))
+
+theorem toUnsigned_lt (bits : Nat) (v : Int) : toUnsigned bits v < 2 ^ bits := by
+  have hp : (0 : Int) < (2 : Int) ^ bits := by positivity
+  have h2 := Int.emod_lt_of_pos v hp
+  rw [← toUnsigned_cast] at h2
+  exact_mod_cast h2
+
+/-- a value that fits `stored ≤ 8*nbytes` bits survives cell encoding, decoding and the unused-bit correction -/
+theorem cell_roundtrip (nbytes stored : Nat) (signed : Bool) (v : Int) (h1 : 1 ≤ stored) (h2 : stored ≤ 8 * nbytes)
+    (hv : if signed then -(2 : Int) ^ (stored - 1) ≤ v ∧ v < (2 : Int) ^ (stored - 1) else 0 ≤ v ∧ v < (2 : Int) ^ stored) :
+    maskStored signed stored (ofLeBytes (leBytes nbytes (toUnsigned (8 * nbytes) v))) = v := by
+  rw [ofLeBytes_leBytes _ _ (by rw [pow256]; exact toUnsigned_lt _ _)]
+  unfold maskStored
+  simp only []
+  -- the low `stored` bits of the cell, as an integer
+  have hdvd : ((2 : Int) ^ stored) ∣ (2 : Int) ^ (8 * nbytes) := pow_dvd_pow 2 h2
+  have hm : (((toUnsigned (8 * nbytes) v) % 2 ^ stored : Nat) : Int) = v % (2 : Int) ^ stored := by
+    push_cast
+    rw [toUnsigned_cast, Int.emod_emod_of_dvd _ hdvd]
+  have hP : (2 : Int) ^ stored = 2 * (2 : Int) ^ (stored - 1) := by
+    have : stored = (stored - 1) + 1 := by omega
+    conv_lhs => rw [this, pow_succ]
+    ring
+  have hpos : (0 : Int) < (2 : Int) ^ (stored - 1) := by positivity
+  cases signed with
+  | false =>
+    simp only [Bool.false_eq_true, ↓reduceIte] at hv ⊢
+    rw [hm, Int.emod_eq_of_lt hv.1 hv.2]
+  | true =>
+    simp only [↓reduceIte] at hv ⊢
+    unfold toSigned
+    generalize hPP : (2 : Int) ^ (stored - 1) = P at *
+    by_cases hneg : 0 ≤ v
+    · have e : v % (2 : Int) ^ stored = v := Int.emod_eq_of_lt hneg (by rw [hP]; omega)
+      have hlt : 2 * ((toUnsigned (8 * nbytes) v) % 2 ^ stored) < 2 ^ stored := by
+        have : (2 : Int) * (((toUnsigned (8 * nbytes) v) % 2 ^ stored : Nat) : Int) < (2 : Int) ^ stored := by
+          rw [hm, e, hP]; omega
+        exact_mod_cast this
+      rw [if_pos hlt, hm, e]
+    · have e : v % (2 : Int) ^ stored = v + (2 : Int) ^ stored := by
+        rw [← Int.add_emod_right]
+        exact Int.emod_eq_of_lt (by rw [hP]; omega) (by omega)
+      have hge : ¬ 2 * ((toUnsigned (8 * nbytes) v) % 2 ^ stored) < 2 ^ stored := by
+        intro hlt
+        have : (2 : Int) * (((toUnsigned (8 * nbytes) v) % 2 ^ stored : Nat) : Int) < (2 : Int) ^ stored := by
+          exact_mod_cast hlt
+        rw [hm, e, hP] at this; omega
+      rw [if_neg hge, hm, e]; ring
+
+theorem decodeCells_encodeCells (nbytes stored : Nat) (signed : Bool) (h1 : 1 ≤ stored) (h2 : stored ≤ 8 * nbytes)
+    (xs : List Int) (tail : List Nat)
+    (hx : ∀ v ∈ xs, if signed then -(2 : Int) ^ (stored - 1) ≤ v ∧ v < (2 : Int) ^ (stored - 1) else 0 ≤ v ∧ v < (2 : Int) ^ stored) :
+    decodeCells nbytes signed stored xs.length (encodeCells nbytes xs ++ tail) = xs := by
+  induction xs with
+  | nil => rfl
+  | cons x xs ih =>
+    simp only [encodeCells, List.flatMap_cons, List.length_cons, decodeCells, List.append_assoc]
+    have hl := leBytes_length nbytes (toUnsigned (8 * nbytes) x)
+    rw [List.take_append_of_le_length (by omega), List.take_of_length_le (by omega),
+        List.drop_append_of_le_length (by omega), List.drop_of_length_le (by omega), List.nil_append]
+    rw [cell_roundtrip nbytes stored signed x h1 h2 (hx x (by simp))]
+    have := ih (fun v hv => hx v (by simp [hv]))
+    simp only [encodeCells] at this
+    rw [this]
+
+theorem encodeCells_length (nbytes : Nat) (xs : List Int) : (encodeCells nbytes xs).length = xs.length * nbytes := by
+  induction xs with
+  | nil => simp [encodeCells]
+  | cons x xs ih =>
+    simp only [encodeCells, List.flatMap_cons, List.length_append, List.length_cons] at ih ⊢
+    rw [ih, leBytes_length]; ring
+
+
+/-! ### single bits -/
+
+theorem bitSlice_zero (rows cols s : Int) : bitSlice 0 rows cols s = .ok (0, rows * cols * s) := by
+  unfold bitSlice
+  have h0 : Rat.floor 0 = 0 := by simpa using Rat.floor_intCast 0
+  simp [h0]
+
+theorem slice_zero {α} (l : List α) (n : Nat) : slice l 0 (n : Int) = .ok (l.take n) := by
+  unfold slice pySlice
+  have : ¬ ((0 : Int) < 0 ∨ (n : Int) < 0) := by omega
+  simp
+
+/-- unpacking what was packed and keeping as many bits as were packed gives the bits back -/
+theorem take_unpack_pack (bs : List Bool) : (unpack (pack bs)).take bs.length = bs := by
+  obtain ⟨pad, h, _, _⟩ := unpack_pack bs
+  rw [h, List.take_left']
+  rfl
+
+/-- ... also when further bytes (padding) follow -/
+theorem take_unpack_pack_tail (bs : List Bool) (tail : List Nat) :
+    (unpack (pack bs ++ tail)).take bs.length = bs := by
+  rw [unpack_append, List.take_append_of_le_length]
+  · exact take_unpack_pack bs
+  · obtain ⟨pad, h, _, _⟩ := unpack_pack bs
+    rw [h]; simp
+
+theorem padEven_eq (l : List Nat) : ∃ tail, padEven l = l ++ tail := by
+  unfold padEven
+  split
+  · exact ⟨[0], rfl⟩
+  · exact ⟨[], by simp⟩
+
+theorem packBits_ok (xs : List Int) (h : ∀ v ∈ xs, v = 0 ∨ v = 1) :
+    packBits xs = .ok (padEven (pack (xs.map (fun v => v == 1)))) := by
+  unfold packBits
+  have : xs.all (fun v => v == 0 || v == 1) = true := by
+    rw [List.all_eq_true]; intro v hv
+    rcases h v hv with h | h <;> simp [h]
+  simp [this]
+
+theorem bits_back (xs : List Int) (h : ∀ v ∈ xs, v = 0 ∨ v = 1) :
+    (xs.map (fun v => v == 1)).map (fun b => if b then (1 : Int) else 0) = xs := by
+  induction xs with
+  | nil => rfl
+  | cons x xs ih =>
+    simp only [List.map_cons]
+    rw [ih (fun v hv => h v (by simp [hv]))]
+    rcases h x (by simp) with h | h <;> simp [h]
+
+
+/-! ### glue -/
+
+theorem Req.of_spp (p : Params) (x : Frame) : (Req.of p x).spp = (x.spp : Int) := by
+  unfold Req.of Req.spp Frame.ndim Frame.shape2 Frame.spp
+  cases x.samples <;> simp
+
+theorem encodeRoute_eq (p : Params) (x : Frame) : encodeRoute p x = (Req.of p x).route := rfl
+
+/-- decode side: a native 1-bit request goes to the bit-unpacking branch whatever else is given -/
+theorem decodeRoute_bits (s : Int) (pi : String) (pr : Int) (pc : Option Int) :
+    decodeFrameRoute false 1 s pi pr pc = .ok 1 := by
+  unfold decodeFrameRoute
+  cases pc <;> simp
+
+theorem decodeRoute_pydicom (enc : Bool) (ba s : Int) (pi : String) (pr : Int) (pc : Option Int)
+    (hba : enc = true ∨ ba ≠ 1) (hpr : pr = 0 ∨ pr = 1) (hpi : knownPI pi)
+    (hpc : s > 1 → pc = some 0 ∨ pc = some 1) :
+    decodeFrameRoute enc ba s pi pr pc = .ok (if enc then 3 else 2) := by
+  unfold decodeFrameRoute knownPI monoPI at *
+  cases pc with
+  | none =>
+    simp only []
+    have hs : ¬ s > 1 := by intro h; have := hpc h; simp at this
+    cases enc <;> grind
+  | some v =>
+    simp only []
+    cases enc <;> grind
+
+
+/-! ### accepted frames decode to themselves -/
+
+theorem accepted_native (p : Params) (x : Frame) (r : Int) (h : encodeRoute p x = .ok r)
+    (hts : p.ts ∈ nativeSyntaxes) :
+    Common (Req.of p x) ∧ NativeOK (Req.of p x) r := by
+  have hs := route_sound (Req.of p x) r (by rw [← encodeRoute_eq]; exact h)
+  obtain ⟨hc, hr⟩ := hs
+  refine ⟨hc, ?_⟩
+  have hts' : (Req.of p x).ts = "1.2.840.10008.1.2" ∨ (Req.of p x).ts = "1.2.840.10008.1.2.1" := by
+    simpa [nativeSyntaxes, Req.of] using hts
+  rcases hr with hr | hr | hr | hr
+  · exact hr
+  · exfalso; unfold BaselineOK jpegBaseline at hr; rcases hts' with h1 | h1 <;> simp [h1] at hr
+  · exfalso; unfold RleOK rle at hr; rcases hts' with h1 | h1 <;> simp [h1] at hr
+  · exfalso; unfold JpegFamilyOK jpegLs jpegLsNear j2k j2kLossless at hr
+    rcases hts' with h1 | h1 <;> simp [h1] at hr
+
+theorem isEncapsulated_native (ts : String) (h : ts ∈ nativeSyntaxes) : isEncapsulated ts = false := by
+  simp [nativeSyntaxes] at h
+  rcases h with h | h <;> subst h <;> rfl
+
+/-- unfolding `encodeFrame` along an accepted route -/
+theorem encodeFrame_ok (c : CodecImpl) (p : Params) (x : Frame) (bytes : List Nat)
+    (h : encodeFrame c p x = .ok bytes) :
+    ∃ r, encodeRoute p x = .ok r ∧
+      ((r = 1 ∧ packBits x.data = .ok bytes) ∨ (r ≠ 1 ∧ r = 2 ∧ bytes = encodeCells x.dtype.itemsize x.data) ∨
+       (r ≠ 1 ∧ r ≠ 2 ∧ c.enc p x = .ok bytes)) := by
+  unfold encodeFrame at h
+  cases hr : encodeRoute p x with
+  | error e => rw [hr] at h; simp [bind, Except.bind] at h
+  | ok r =>
+    rw [hr] at h
+    simp only [bind, Except.bind] at h
+    refine ⟨r, rfl, ?_⟩
+    by_cases h1 : r = 1
+    · simp [h1] at h; exact Or.inl ⟨h1, h⟩
+    · by_cases h2 : r = 2
+      · simp [h2] at h; exact Or.inr (Or.inl ⟨h1, h2, h.symm⟩)
+      · simp [h1, h2] at h; exact Or.inr (Or.inr ⟨h1, h2, h⟩)
+
+/-- **single bits**: an accepted native 1-bit frame decodes to itself (index 0 = a stand-alone frame) -/
+theorem native_bits_roundtrip (c : CodecImpl) (conv : List Int → List Int) (p : Params) (x : Frame) (bytes : List Nat)
+    (hwf : x.WF) (hts : p.ts ∈ nativeSyntaxes) (hba : p.bitsAllocated = 1)
+    (henc : encodeFrame c p x = .ok bytes) :
+    decodeFrame c conv p x.rows x.cols x.spp bytes = .ok x.data ∧
+    pydicomOneBit x.rows x.cols x.spp bytes = .ok x.data := by
+  obtain ⟨r, hr, hb⟩ := encodeFrame_ok c p x bytes henc
+  obtain ⟨_, hn⟩ := accepted_native p x r hr hts
+  have hr1 : r = 1 := by
+    obtain ⟨_, _, h3⟩ := hn
+    rcases h3 with h3 | h3
+    · exact h3.2.2
+    · exact absurd hba h3.1
+  subst hr1
+  have hpk : packBits x.data = .ok bytes := by
+    rcases hb with hb | hb | hb
+    · exact hb.2
+    · exact absurd rfl hb.1
+    · exact absurd rfl hb.1
+  -- the content is binary, otherwise `pack_bits` had refused
+  have hbin : ∀ v ∈ x.data, v = 0 ∨ v = 1 := by
+    unfold packBits at hpk
+    split at hpk
+    · rename_i hall
+      rw [List.all_eq_true] at hall
+      intro v hv; have := hall v hv; simpa using this
+    · cases hpk
+  rw [packBits_ok _ hbin] at hpk
+  obtain ⟨tail, htail⟩ := padEven_eq (pack (x.data.map (fun v => v == 1)))
+  have hbytes : bytes = pack (x.data.map (fun v => v == 1)) ++ tail := by
+    rw [← htail]; exact (Except.ok.inj hpk).symm
+  have hlen : (x.data.map (fun v => v == 1)).length = x.rows * x.cols * x.spp := by
+    rw [List.length_map]; exact hwf.1
+  constructor
+  · unfold decodeFrame
+    rw [isEncapsulated_native _ hts, hba, decodeRoute_bits]
+    simp only [bind, Except.bind, ↓reduceIte]
+    have e : ((x.rows : Int) * (x.cols : Int) * (x.spp : Int)) = ((x.rows * x.cols * x.spp : Nat) : Int) := by push_cast; rfl
+    rw [bitSlice_zero, e]
+    simp only []
+    rw [slice_zero, hbytes, ← hlen, take_unpack_pack_tail]
+    simp only [↓reduceIte]
+    rw [bits_back _ hbin]
+  · unfold pydicomOneBit
+    simp only []
+    have hl : ¬ 8 * bytes.length < x.rows * x.cols * x.spp := by
+      rw [hbytes, ← unpack_length, ← hlen, unpack_append]
+      obtain ⟨pad, h, _, _⟩ := unpack_pack (x.data.map (fun v => v == 1))
+      rw [h]; simp
+    rw [if_neg hl, hbytes, ← hlen, take_unpack_pack_tail, bits_back _ hbin]
+
+theorem decodedDType_of (d : DType) (ba pr : Int) (hk : d.kind = "b" ∨ d.kind = "u" ∨ d.kind = "i")
+    (hsz : (d.itemsize : Int) * 8 = ba) :
+    ∃ dt, decodedDType ba pr = .ok dt ∧ dt.itemsize = d.itemsize := by
+  subst hsz
+  by_cases hp : pr = 1 <;> cases d <;> simp [DType.kind] at hk <;> simp [DType.itemsize, decodedDType, hp]
+
+/-- **cells**: an accepted native frame with >= 8 bits allocated whose values fit the stored bits decodes to
+    itself -- for every shape, every supported dtype and every content.  (YBR photometric
+    interpretations excluded: pydicom converts them to RGB on the way out, see `ybr_full_*`.) -/
+theorem native_cells_decode (c : CodecImpl) (conv : List Int → List Int) (p : Params) (x : Frame) (bytes : List Nat)
+    (hwf : x.WF) (hfit : FitsStored p x) (hts : p.ts ∈ nativeSyntaxes) (hba : p.bitsAllocated ≠ 1)
+    (henc : encodeFrame c p x = .ok bytes) :
+    decodeFrame c conv p x.rows x.cols x.spp bytes = .ok (if convertsColour p.pi x.spp then conv x.data else x.data) ∧
+    pydicomNative conv p x.rows x.cols x.spp bytes = .ok (if convertsColour p.pi x.spp then conv x.data else x.data) := by
+  obtain ⟨r, hr, hb⟩ := encodeFrame_ok c p x bytes henc
+  obtain ⟨hcm, hn⟩ := accepted_native p x r hr hts
+  obtain ⟨hplanar, hpr, hpi, hbs1, hbs2⟩ := hcm
+  obtain ⟨_, hspp, h3⟩ := hn
+  rw [Req.of_spp] at hspp
+  simp only [Req.of] at hplanar hpr hpi hbs1 hbs2 hspp h3
+  obtain ⟨_, hkind, hsz, hsg, hr2⟩ : p.bitsAllocated ≠ 1 ∧ (x.dtype.kind = "b" ∨ x.dtype.kind = "u" ∨ x.dtype.kind = "i") ∧
+      (x.dtype.itemsize : Int) * 8 = p.bitsAllocated ∧ (x.dtype.kind = "i" ↔ p.pixelRepresentation = 1) ∧ r = 2 := by
+    rcases h3 with h3 | h3
+    · exact absurd h3.1 hba
+    · exact h3
+  subst hr2
+  have hbytes : bytes = encodeCells x.dtype.itemsize x.data := by
+    rcases hb with hb | hb | hb
+    · exact absurd hb.1 (by decide)
+    · exact hb.2.2
+    · exact absurd rfl hb.2.1
+  obtain ⟨dt, hdt, hdsz⟩ := decodedDType_of x.dtype p.bitsAllocated p.pixelRepresentation hkind hsz
+  have hroute : decodeFrameRoute false p.bitsAllocated (x.spp : Int) p.pi p.pixelRepresentation p.planar = .ok 2 := by
+    have := decodeRoute_pydicom false p.bitsAllocated (x.spp : Int) p.pi p.pixelRepresentation p.planar
+      (Or.inr hba) hpr hpi (by
+        intro hs
+        rcases hspp with hspp | hspp
+        · omega
+        · exact Or.inl hspp.2.2)
+    simpa using this
+  have hpyd : pydicomNative conv p x.rows x.cols x.spp bytes = .ok (if convertsColour p.pi x.spp then conv x.data else x.data) := by
+    unfold pydicomNative
+    rw [hdt]
+    simp only [bind, Except.bind, hdsz]
+    have hlen : bytes.length = x.rows * x.cols * x.spp * x.dtype.itemsize := by
+      rw [hbytes, encodeCells_length, hwf.1]
+    rw [if_neg (by omega), if_neg (by omega)]
+    have hst1 : 1 ≤ p.bitsStored.toNat := by omega
+    have hst2 : p.bitsStored.toNat ≤ 8 * x.dtype.itemsize := by omega
+    have := decodeCells_encodeCells x.dtype.itemsize p.bitsStored.toNat (p.pixelRepresentation == 1) hst1 hst2 x.data []
+      (by
+        intro v hv
+        have hf := hfit v hv
+        by_cases hp : p.pixelRepresentation = 1
+        · simp only [hp, ↓reduceIte, beq_self_eq_true] at hf ⊢; exact hf
+        · have hp' : (p.pixelRepresentation == 1) = false := by simpa using hp
+          simp only [hp, ↓reduceIte, hp', Bool.false_eq_true] at hf ⊢; exact hf)
+    rw [List.append_nil, hwf.1] at this
+    rw [hbytes, this]
+  refine ⟨?_, hpyd⟩
+  unfold decodeFrame
+  rw [isEncapsulated_native _ hts, hroute]
+  simp only [bind, Except.bind]
+  have h21 : ¬ ((2 : Int) = 1) := by decide
+  simp only [h21, ↓reduceIte]
+  exact hpyd
+
+theorem spp_gt_one_ndim (x : Frame) (h : (x.spp : Int) > 1) : (x.ndim : Int) > 2 := by
+  unfold Frame.spp at h; unfold Frame.ndim
+  cases hs : x.samples <;> simp [hs] at h ⊢
+
+/-- **encapsulated syntaxes**: whatever `encode_frame` hands to a lossless codec and the codec accepts comes
+    back from `decode_frame` unchanged (RLE, JPEG-LS lossless, JPEG 2000 lossless; again without the
+    YBR -> RGB conversion pydicom applies on decoding). -/
+theorem encapsulated_decode (c : CodecImpl) (hc : c.Lossless) (conv : List Int → List Int) (p : Params) (x : Frame)
+    (bytes : List Nat) (hts : isEncapsulated p.ts = true)
+    (henc : encodeFrame c p x = .ok bytes) :
+    decodeFrame c conv p x.rows x.cols x.spp bytes = .ok (if convertsColour p.pi x.spp then conv x.data else x.data) := by
+  obtain ⟨r, hr, hb⟩ := encodeFrame_ok c p x bytes henc
+  have hs := route_sound (Req.of p x) r (by rw [← encodeRoute_eq]; exact hr)
+  obtain ⟨⟨hplanar, hpr, hpi, _, _⟩, hcases⟩ := hs
+  simp only [Req.of] at hplanar hpr hpi
+  have hnn : ¬ NativeOK (Req.of p x) r := by
+    intro hn
+    have : p.ts ∈ nativeSyntaxes := by
+      rcases hn.1 with h | h <;> simp [Req.of] at h <;> simp [nativeSyntaxes, h]
+    rw [isEncapsulated_native _ this] at hts; cases hts
+  have hcodec : c.enc p x = .ok bytes := by
+    rcases hb with hb | hb | hb
+    · exfalso
+      obtain ⟨h1, _⟩ := hb; subst h1
+      rcases hcases with h | h | h | h
+      · exact hnn h
+      · exact absurd h.2.2.2.2.2 (by decide)
+      · exact absurd h.2.2 (by decide)
+      · rcases h.2.2.2.2 with h4 | h4
+        · exact absurd h4.2.2.2 (by decide)
+        · exact absurd h4.2 (by decide)
+    · exfalso
+      obtain ⟨_, h2, _⟩ := hb; subst h2
+      rcases hcases with h | h | h | h
+      · exact hnn h
+      · exact absurd h.2.2.2.2.2 (by decide)
+      · exact absurd h.2.2 (by decide)
+      · rcases h.2.2.2.2 with h4 | h4
+        · exact absurd h4.2.2.2 (by decide)
+        · exact absurd h4.2 (by decide)
+    · exact hb.2.2
+  have hroute : decodeFrameRoute true p.bitsAllocated (x.spp : Int) p.pi p.pixelRepresentation p.planar = .ok 3 := by
+    have := decodeRoute_pydicom true p.bitsAllocated (x.spp : Int) p.pi p.pixelRepresentation p.planar
+      (Or.inl rfl) hpr hpi (fun hs => hplanar (spp_gt_one_ndim x hs))
+    simpa using this
+  unfold decodeFrame
+  rw [hts, hroute]
+  simp only [bind, Except.bind]
+  have h31 : ¬ ((3 : Int) = 1) := by decide
+  have h32 : ¬ ((3 : Int) = 2) := by decide
+  simp only [h31, h32, ↓reduceIte]
+  rw [hc p x bytes hcodec]
+
+
+
+/-! ### representability, refusal -/
+
+theorem kind_int_iff (d : DType) : (d.kind = "b" ∨ d.kind = "u" ∨ d.kind = "i") ↔ d.isInt = true := by
+  cases d <;> simp [DType.kind, DType.isInt]
+
+theorem kind_signed_iff (d : DType) : d.kind = "i" ↔ d.signed = true := by
+  cases d <;> simp [DType.kind, DType.signed]
+
+theorem ndim_three_iff (x : Frame) : ((x.ndim : Int) > 2) ↔ x.ndim = 3 := by
+  unfold Frame.ndim; cases x.samples <;> simp
+
+/-- accepted (by any syntax but RLE, whose checks are pydicom's) ⇒ representable -/
+theorem representable_of_accepted (p : Params) (x : Frame) (r : Int) (h : encodeRoute p x = .ok r)
+    (hrle : p.ts ≠ rle) : Representable p x := by
+  have hs := route_sound (Req.of p x) r (by rw [← encodeRoute_eq]; exact h)
+  obtain ⟨⟨hplanar, hpr, hpi, hbs1, hbs2⟩, hcases⟩ := hs
+  have hspp := Req.of_spp p x
+  have hk := kind_int_iff x.dtype
+  have hsg := kind_signed_iff x.dtype
+  have hnd := ndim_three_iff x
+  simp only [Req.of] at hplanar hpr hpi hbs1 hbs2
+  simp only [NativeOK, BaselineOK, RleOK, JpegFamilyOK, hspp] at hcases
+  simp only [Req.of] at hcases
+  have hsamp : x.spp = 1 ∨ x.spp = 3 := by
+    rcases hcases with h | h | h | h
+    · rcases h.2.1 with h1 | h1 <;> omega
+    · rcases h.2.2.2.2.1 with h1 | h1 <;> omega
+    · exact absurd h.1 hrle
+    · rcases h.2.2.1 with h1 | h1 <;> omega
+  have hnat : p.ts ∈ nativeSyntaxes → (p.ts = "1.2.840.10008.1.2" ∨ p.ts = "1.2.840.10008.1.2.1") := by
+    intro h; simpa [nativeSyntaxes] using h
+  constructor
+  · exact hsamp
+  · intro h1
+    unfold monochromePIs
+    simp only [monoPI, requiredPI, jpegBaseline, rle, jpegLs, jpegLsNear, j2k, j2kLossless] at hcases hrle
+    grind
+  · intro h3
+    unfold monochromePIs
+    simp only [monoPI, requiredPI, jpegBaseline, rle, jpegLs, jpegLsNear, j2k, j2kLossless] at hcases hrle
+    grind
+  · intro h3
+    exact hplanar (hnd.mpr h3)
+  · exact ⟨hbs1, hbs2⟩
+  · exact hpr
+  · intro hn hba
+    have := hnat hn
+    simp only [monoPI, requiredPI, jpegBaseline, rle, jpegLs, jpegLsNear, j2k, j2kLossless] at hcases hrle
+    grind
+  · intro hn hba
+    have := hnat hn
+    simp only [monoPI, requiredPI, jpegBaseline, rle, jpegLs, jpegLsNear, j2k, j2kLossless] at hcases hrle
+    have key : ((x.rows : Int) * (x.cols : Int) * (x.spp : Int)) % 8 = 0 := by grind
+    have e : ((x.rows : Int) * (x.cols : Int) * (x.spp : Int)) = ((x.rows * x.cols * x.spp : Nat) : Int) := by push_cast; rfl
+    rw [e] at key
+    exact_mod_cast key
+
+
+/-- refused exactly when no route satisfies the specification -/
+theorem refused_iff (p : Params) (x : Frame) :
+    (∃ e, encodeRoute p x = .error e) ↔ ¬ ∃ r, AcceptSpec (Req.of p x) r := by
+  constructor
+  · rintro ⟨e, he⟩ ⟨r, hs⟩
+    have := route_complete (Req.of p x) r hs
+    rw [← encodeRoute_eq, he] at this; cases this
+  · intro hn
+    cases hr : encodeRoute p x with
+    | error e => exact ⟨e, rfl⟩
+    | ok r => exact absurd ⟨r, route_sound (Req.of p x) r (by rw [← encodeRoute_eq]; exact hr)⟩ hn
+
+/-- a refused request yields no bytes at all -/
+theorem encodeFrame_refused (c : CodecImpl) (p : Params) (x : Frame) (e : ErrKind) (h : encodeRoute p x = .error e) :
+    encodeFrame c p x = .error e := by
+  unfold encodeFrame; rw [h]; rfl
 
 end HdVerif.Codec
